@@ -101,6 +101,7 @@ from iodata.convert import HORTON2_CONVENTIONS
 from iodata.orbitals import MolecularOrbitals
 data_dir = os.path.join(os.path.dirname(iodata.__file__), "test", "data")
 tmp = tempfile.mkdtemp()
+__import__("atexit").register(__import__("shutil").rmtree, tmp, True)
 fails, cases = [], 0
 def snap(x, depth=0):
     if isinstance(x, np.ndarray): return ("arr", x.dtype.str, x.shape, x.tobytes(), id(x))
